@@ -57,6 +57,31 @@ macro_rules! dynamic_for {
                     if !(d <= 2.0 * tol) {
                         c.violation(&format!("C14/adapt-dynamic-white/{}/{}/{}", $mn, tn, if (wo[1] - 1.0).abs() > 1e-9 || (wi[1] - 1.0).abs() > 1e-9 { "Y!=1" } else { "Y=1" }), d, || case("source white -> destination white (both normalised to Y = 1)", vec![got.x as f64, got.y as f64, got.z as f64], want.to_vec()));
                     }
+                    // (0) a white point left out (None) means the static one of the type tag: the matrix must be the
+                    // very same as with that white point passed explicitly — for either side, also when I == O
+                    {
+                        let si: Xyz<$I, T> = <$I as palette::white_point::WhitePoint<T>>::get_xyz().with_white_point();
+                        let so: Xyz<$O, T> = <$O as palette::white_point::WhitePoint<T>>::get_xyz().with_white_point();
+                        let forms = pv::catch(|| [
+                            ("(None, Some(out))", adaptation_matrix::<T, $I, $O, $M>(None, Some(xo)), adaptation_matrix::<T, $I, $O, $M>(Some(si), Some(xo))),
+                            ("(Some(in), None)", adaptation_matrix::<T, $I, $O, $M>(Some(xi), None), adaptation_matrix::<T, $I, $O, $M>(Some(xi), Some(so))),
+                            ("(None, None)", adaptation_matrix::<T, $I, $O, $M>(None, None), adaptation_matrix::<T, $I, $O, $M>(Some(si), Some(so))),
+                        ]);
+                        if let Ok(forms) = forms {
+                            for (what, a, b) in forms {
+                                for p in points() {
+                                    let x: Xyz<$I, T> = Xyz::new(p[0] as T, p[1] as T, p[2] as T);
+                                    let (ya, yb): (Xyz<$O, T>, Xyz<$O, T>) = (a.convert(x), b.convert(x));
+                                    *n += 1;
+                                    if (ya.x.to_bits(), ya.y.to_bits(), ya.z.to_bits()) != (yb.x.to_bits(), yb.y.to_bits(), yb.z.to_bits()) {
+                                        c.violation(&format!("C14/adapt-dynamic-default-white/{}/{}/{}", $mn, tn, what), 1.0, || case(what, vec![ya.x as f64, ya.y as f64, ya.z as f64], vec![yb.x as f64, yb.y as f64, yb.z as f64]));
+                                    }
+                                }
+                            }
+                        } else {
+                            c.violation(&format!("C14/adapt-dynamic/{}/{}/panic", $mn, tn), 1.0, || case("adaptation_matrix with None", vec![], vec![]));
+                        }
+                    }
                     for p in points() {
                         let x: Xyz<$I, T> = Xyz::new(p[0] as T, p[1] as T, p[2] as T);
                         let y: Xyz<$O, T> = m.convert(x);
@@ -172,6 +197,6 @@ pub fn run(ctx: &Ctx, total: &mut Collector) {
         f(&mut c, &mut n);
     }
     c.add(sub, n, 6 * n, 6 * n, n);
-    c.exhaustive(sub, true, "all 18 x 18 ordered pairs of run-time white points (6 chromaticities x luminance 1, 0.8, 2.5) x {Bradford, VonKries, XYZ scaling} x 6 XYZ points, f32/f64: white -> white, identity for equal chromaticity, reverse matrix / invert() / then(); Matrix3 from RGB spaces (6 named spaces and 4 tuple spaces (primaries, white point) whose matrices are derived at run time): white -> white point, matrix_from_rgb vs conversion, matrix_from_xyz, invert, then, identity");
+    c.exhaustive(sub, true, "all 18 x 18 ordered pairs of run-time white points (6 chromaticities x luminance 1, 0.8, 2.5) x {Bradford, VonKries, XYZ scaling} x 6 XYZ points, f32/f64: white -> white, a white point left out (None) on either or both sides == the static one passed explicitly (I == O and I != O), identity for equal chromaticity, reverse matrix / invert() / then(); Matrix3 from RGB spaces (6 named spaces and 4 tuple spaces (primaries, white point) whose matrices are derived at run time): white -> white point, matrix_from_rgb vs conversion, matrix_from_xyz, invert, then, identity");
     total.merge(c);
 }
